@@ -24,6 +24,7 @@ type Env struct {
 	callRecv *Val
 	callRes  *Val
 	depth    int
+	at       *ssa.BasicBlock // evaluation point (for resolving source-level names to SSA values)
 }
 
 func (env *Env) clone() *Env {
@@ -41,7 +42,7 @@ func (fr *Frame) contractEnv(st *State, pc T) *Env {
 	if p := fnPackage(fr.fn); p != nil {
 		pkg = p.Name()
 	}
-	env := &Env{vc: fr.vc, fr: fr, st: st, old: fr.entry, pc: pc, vars: map[string]Val{}, pkg: pkg}
+	env := &Env{vc: fr.vc, fr: fr, st: st, old: fr.entry, pc: pc, vars: map[string]Val{}, pkg: pkg, at: fr.curBlock}
 	if env.old == nil {
 		env.old = st
 	}
@@ -593,7 +594,7 @@ func (env *Env) evalIdent(name string) (Val, error) {
 		return *env.callRecv, nil
 	}
 	if env.fr != nil {
-		if v, ok := env.fr.lookupLocal(name, env.st); ok {
+		if v, ok := env.fr.lookupLocal(name, env.st, env.at); ok {
 			return v, nil
 		}
 	}
@@ -654,7 +655,7 @@ func (env *Env) constValue(c *types.Const) (Val, error) {
 }
 
 // lookupLocal resolves a source-level name inside the frame's function.
-func (fr *Frame) lookupLocal(name string, st *State) (Val, bool) {
+func (fr *Frame) lookupLocal(name string, st *State, at *ssa.BasicBlock) (Val, bool) {
 	vc := fr.vc
 	for _, p := range fr.fn.Params {
 		if p.Name() == name {
@@ -696,14 +697,27 @@ func (fr *Frame) lookupLocal(name string, st *State) (Val, bool) {
 		}
 	}
 	// phis named after the variable: prefer the one in the innermost loop header being processed
+	// phis named after the variable: the closest one that dominates the evaluation point
 	var phi *ssa.Phi
-	n := 0
 	for v := range fr.regs {
-		if p, ok := v.(*ssa.Phi); ok && p.Comment == name {
-			if phi == nil || p.Block().Index > phi.Block().Index {
-				phi = p
+		p, ok := v.(*ssa.Phi)
+		if !ok || p.Comment != name {
+			continue
+		}
+		if at != nil && p.Block() != at && !p.Block().Dominates(at) {
+			continue
+		}
+		if phi == nil || phi.Block().Dominates(p.Block()) {
+			phi = p
+		}
+	}
+	if phi == nil && at == nil {
+		for v := range fr.regs {
+			if p, ok := v.(*ssa.Phi); ok && p.Comment == name {
+				if phi == nil || p.Block().Index > phi.Block().Index {
+					phi = p
+				}
 			}
-			n++
 		}
 	}
 	if phi != nil {
@@ -823,7 +837,7 @@ func (env *Env) tryIdent(name string) (Val, bool) {
 		return v, true
 	}
 	if env.fr != nil {
-		if v, ok := env.fr.lookupLocal(name, env.st); ok {
+		if v, ok := env.fr.lookupLocal(name, env.st, env.at); ok {
 			return v, true
 		}
 	}
